@@ -94,6 +94,11 @@ def directed_reference_duplicates(ctx):
                 d = copy.deepcopy(nat)
                 d["imports"][0]["connections"] = [{"to_ref": a, "add_dependency": "checkpoint:0"}, {"to_ref": b, "add_dependency": "checkpoint:55"}]
                 docs.append(("two connections of one import target one object (%s / %s)" % (a, b), d, True))
+        # known finding C10-junk-in-schema-qualifier: the qualifier is parsed leniently and compared as written
+        d = copy.deepcopy(nat)
+        d["imports"][0]["connections"] = [{"to_ref": sp["a1"][0], "add_dependency": "checkpoint:0"},
+                                          {"to_ref": "schema:{%s}:junk}.action:1" % fn, "add_dependency": "checkpoint:55"}]
+        docs.append(("KF two connections of one import target one object, one through a qualifier with trailing junk", d, True))
         for a, b in itertools.product(sp["a1"], sp["c0"]):
             d = copy.deepcopy(nat)
             d["imports"][0]["connections"] = [{"to_ref": a, "add_dependency": "checkpoint:0"}, {"to_ref": b, "add_dependency": "checkpoint:55"}]
@@ -104,6 +109,10 @@ def directed_reference_duplicates(ctx):
     n_bad = 0
     for (what, d, dup), r in zip(docs, res):
         dup_reported = any("duplicate" in e or "cannot specify the same" in e for e in r["errors"])
+        if what.startswith("KF "):
+            if r["outcome"] == "accept":
+                ctx.known_finding("two connections of one import that target the same object are accepted when one writes the schema qualifier with trailing junk ('schema:{file}:junk}.action:1' resolves like 'schema:{file}.action:1' but is compared as written); witness: known_findings.json C10-junk-in-schema-qualifier")
+            continue
         if dup and r["outcome"] == "accept" and n_bad < 3:
             n_bad += 1
             ctx.violation({"what": "a duplicate is accepted: " + what, "document": d, "implementation": r})
